@@ -28,7 +28,7 @@ func init() {
 			{Name: "sweep-events", Bubble: true, Run: c14Sweep, SweepN: c14SweepN, Exhaustive: true,
 				SweepNote: "all sequences of length <= 6 over the 7 event kinds {deliver-message, deliver-byte, cn-handler(next message), cn-task, terminate(kind by case), release-one, unyield-one} x 4 termination kinds, on a 3-message workload with yield sites enabled"},
 		},
-		MustProbes: []string{"cn-while-reader-blocked", "cn-from-handler", "cn-after-termination", "term:peer-eof", "term:rst", "term:undecodable", "term:local-close", "yield-parked", "copier-at-notify", "eof-with-data"},
+		MustProbes: []string{"cn-while-reader-blocked", "cn-from-handler", "cn-after-termination", "term:peer-eof", "term:rst", "term:undecodable", "term:local-close", "yield-parked", "copier-at-notify", "eof-with-data", "cn-from-error-reporter"},
 	})
 }
 
@@ -81,6 +81,22 @@ func (w *cnWorld) record(ch <-chan struct{}, kind string) {
 	}
 	w.mu.Unlock()
 	w.e.Probe("cn-" + kind)
+}
+
+// cnReporter is a handler that requests CloseNotify from inside ErrorReporter.Error.
+type cnReporter struct {
+	*diam.ServeMux
+	w *cnWorld
+}
+
+func (r cnReporter) Error(er *diam.ErrorReport) {
+	if er != nil && er.Conn != nil {
+		if cn, ok := er.Conn.(diam.CloseNotifier); ok {
+			ch := cn.CloseNotify()
+			r.w.record(ch, "from-error-reporter")
+		}
+	}
+	r.ServeMux.Error(er)
 }
 
 func isClosed(ch <-chan struct{}) bool {
@@ -190,14 +206,21 @@ func c14Build(e *Env, sweep bool, w *cnWorld) *cnWorld {
 	}
 	mux := diam.NewServeMux()
 	mux.HandleFunc("ALL", w.handler)
+	var h diam.Handler = mux
+	if t.Chance(1, 3) {
+		// an application handler that also implements ErrorReporter and asks for
+		// CloseNotify when it is told about a connection error
+		h = cnReporter{mux, w}
+		e.Act("error-reporter-requests-cn", "")
+	}
 	served := t.Chance(1, 3)
 	if served {
 		w.lis = newSimListener(e)
-		srv := &diam.Server{Handler: mux, Dict: simDict()}
+		srv := &diam.Server{Handler: h, Dict: simDict()}
 		go srv.Serve(w.lis)
 		w.lis.Connect(w.sc)
 	} else {
-		c, err := diam.NewConn(w.sc, "sim", mux, simDict())
+		c, err := diam.NewConn(w.sc, "sim", h, simDict())
 		if err != nil {
 			e.Harness("NewConn: %v", err)
 		}
